@@ -189,6 +189,10 @@ func processDocLine(gl *GenLine, pool []Expr, rep *Report, fnd *Findings) {
 			rng := rand.New(rand.NewSource(int64(ci) + seedFromEnv()))
 			styles = []Style{{}, {Abbrev: true, Space: 1}, {FullParens: true, Space: 2, Rng: rng, PadNum: 1}, {Abbrev: true, FullParens: true, Space: 2, Rng: rng, PadNum: 2}}
 		}
+		if strings.HasPrefix(gl.Fam, "C06") || strings.HasPrefix(gl.Fam, "C05") || strings.HasPrefix(gl.Fam, "C04n") {
+			// number literals also in their other spellings: 010 and 10.0 are the number 10 (decimal, whatever the digits)
+			styles = append(append([]Style{}, baseStyles...), Style{Space: 1, PadNum: 1}, Style{PadNum: 2})
+		}
 		fails, judged, text := b.judgeExec(gl.Fam, env, gc.Ctx, gc.E, gc.R, styles)
 		if gl.Fam == "C04.nodes" && gc.E.Op == "call" && str(gc.E.Lo) == "string" && len(gc.E.Args) == 0 && gc.R.T == "str" {
 			// the convenience function must agree with string(.)
